@@ -11162,6 +11162,20 @@ impl SctpTransport {
 
 #[cfg(rustrtc_verif)]
 impl SctpTransport {
+    /// H2: take a channel's send lock the way a sender that is in the middle of `send_data`
+    /// does (to put `send_dcep_open` / `send_data` into a chosen interleaving).
+    pub async fn verif_hold_send_lock(dc: &DataChannel) -> tokio::sync::MutexGuard<'_, ()> {
+        dc.send_lock.lock().await
+    }
+
+    /// H2: the channel's "DCEP OPEN is queued" mark.
+    pub fn verif_dcep_open_queued(dc: &DataChannel) -> bool {
+        dc.dcep_open_queued.load(Ordering::SeqCst)
+    }
+}
+
+#[cfg(rustrtc_verif)]
+impl SctpTransport {
     /// H2: put an idle transport into an association state, so that functions that depend on it
     /// (`send_data` refuses user data before the association is established) can be run alone.
     pub fn verif_set_state(&self, state: SctpState) {
